@@ -41,6 +41,10 @@ def run(pid, tier, seed):
       for mv in (None, 2, 0):
         cfgs.append({"fam": "po2", "cls": cls, "bits": bits, "hasmv": mv is not None, "mvk": mv or 0, "sl": 0,
                      "mode": "rnd"})
+  for kind in ("po2_quad", "relu_po2_quad"):
+    for bits in (3, 4, 5):
+      for mv in (None, 2, 0):
+        cfgs.append({"fam": "eq", "kind": kind, "alpha": "None", "bits": bits, "hasmv": mv is not None, "mvk": mv or 0})
   for kind in ("binary_sr", "stochastic_binary", "stochastic_ternary", "ternary_sr"):
     for alpha in ("None", "1.0", "auto", "auto_po2"):
       if kind == "ternary_sr" and not alpha.startswith("auto"):
